@@ -115,7 +115,31 @@ pub fn setup(c: &TwoHopCase, l: &mut Local) -> Option<Setup> {
         2 => a_to_b_two = !a_to_b_two,
         _ => {}
     }
-    let params = TwoHopParams { amount: c.amount, threshold: SwapParams::neutral_threshold(c.exact_in), exact_in: c.exact_in, a_to_b_one, a_to_b_two, limit_one: lim_one, limit_two: lim_two };
+    // dust: amounts 1..=4 stand for "the smallest input for which leg one delivers exactly that many units" (found by dry runs), so that
+    // leg two receives an amount that is all fee and does not move its pool's price
+    let mut amount = c.amount;
+    if c.exact_in && c.amount <= 4 && c.malformed == 0 {
+        let want = c.amount;
+        let mut cands: Vec<u64> = (1..=48).collect();
+        cands.extend((6..44).map(|b| 1u64 << b));
+        for a in cands {
+            let mut dry = h.w.clone();
+            let sp = SwapParams { amount: a, threshold: 0, sqrt_price_limit: lim_one, exact_in: true, a_to_b: a_to_b_one };
+            let v2d = c.v2 || h.w.pools[p_one].mint_a.program != crate::world::TOKEN || h.w.pools[p_one].mint_b.program != crate::world::TOKEN;
+            match single(&mut dry, p_one, user, &sp, v2d) {
+                Ok((_, out)) if out == want => {
+                    amount = a;
+                    l.count("dust_two_hop_leg_one_delivers_1_to_4_units");
+                    break;
+                }
+                Ok((_, out)) if out > want => break,
+                Ok(_) => {}
+                Err(_) => break,
+            }
+        }
+        SINGLE_EVENTS.with(|e| e.borrow_mut().clear());
+    }
+    let params = TwoHopParams { amount, threshold: SwapParams::neutral_threshold(c.exact_in), exact_in: c.exact_in, a_to_b_one, a_to_b_two, limit_one: lim_one, limit_two: lim_two };
     Some(Setup { h, p_one, p_two: p_two_eff, user, params, v2, m_in, m_mid: shared, m_out })
 }
 
@@ -409,13 +433,25 @@ pub fn case_strategy() -> BoxedStrategy<TwoHopCase> {
         )
         .prop_map(|v| v.into_iter().flatten().collect::<Vec<Op>>()),
         prop::collection::vec(op_strategy(false), 0..=8),
-        (any::<bool>(), any::<bool>(), 0u8..2, swap_amount_strategy(), any::<bool>()),
+        (any::<bool>(), any::<bool>(), 0u8..2, prop_oneof![5 => swap_amount_strategy(), 2 => 1u64..=4, 1 => (1u64..=3000)], any::<bool>()),
         (prop_oneof![3 => Just(LimitSel::None), 1 => limit_strategy()], prop_oneof![3 => Just(LimitSel::None), 1 => limit_strategy()], any::<bool>(), prop_oneof![12 => Just(0u8), 1 => Just(1u8), 1 => Just(2u8)], prop_oneof![10 => Just(0u8), 1 => Just(1u8), 1 => Just(2u8), 1 => Just(3u8), 1 => Just(4u8), 1 => Just(8u8), 1 => Just(12u8)]),
     )
         .prop_map(|(hist1, spec2, mut pre2, ops2, (share_a, forward, trader, amount, exact_in), (limit_one, limit_two, v2, malformed, readonly_oracle))| {
             // positions of pool two are opened by the same LPs; position indexes are world-global, so the prelude's
             // `pos: u16::MAX` addresses the position just opened
             pre2.extend(ops2);
+            let (mut hist1, mut spec2, mut v2) = (hist1, spec2, v2);
+            // dust two-hops (leg two receives an all-fee amount): half of them over SPL mints through the v1 instruction, with an
+            // adaptive-fee pool as second leg, where "nothing traded" must still refresh the adaptive-fee state like a single swap does
+            if amount <= 4 && exact_in && trader == 0 {
+                hist1.spec.mint_kind = 0;
+                spec2.mint_kind = 0;
+                v2 = false;
+                let leg_two = if forward { &mut spec2 } else { &mut hist1.spec };
+                if leg_two.adaptive.is_none() {
+                    leg_two.adaptive = Some(crate::world2::AfConstants::sane(leg_two.tick_spacing));
+                }
+            }
             TwoHopCase { hist1, spec2, ops2: pre2, share_a, forward, trader, amount, exact_in, limit_one, limit_two, v2, malformed, readonly_oracle }
         })
         .boxed()
